@@ -3,6 +3,7 @@
 //	plan  <cap> <pool> <hist> <op>        => seq=<sites of the whole op> res= pre= post= vis=
 //	crash <cap> <pool> <hist> <op> <k>    => at= pre= post= rec= vis= acc= v1= v2=
 //	new   <cap> <pool>                    => d0= d1= d2=   (file.New dies at its MkdirAll, then a second file.New)
+//	chist <cap> <pool> <items>             => res= cks=   (items: op | op@k = killed after k steps, then reopened | R)
 //	visit <cap> <pool> <hist> <op> <k> <j> => vis= started= pre= post= fin=   (walk interleaved with the operation)
 //
 // `crash … k`: the history runs on a scratch directory; the operation under test then runs with a
@@ -241,7 +242,44 @@ func newCrash(cap int) []string {
 	return out
 }
 
+// crashHistory: a history in which operations run to completion, are killed after k file-system steps
+// (`op@k`; the store is then reopened, as after a process restart), and reopens are interleaved. After
+// every item the state is read through a separate fresh store object.
+func crashHistory(cap int, items string) []string {
+	dir := fsd.Scratch("c11h")
+	defer os.RemoveAll(dir)
+	s := fsd.Open(dir, cap, nil)
+	var res, cks []string
+	for _, it := range strings.Split(items, ",") {
+		opf, k := it, -1
+		if i := strings.Index(it, "@"); i >= 0 {
+			opf, k = it[:i], vh.AtoI(it[i+1:])
+		}
+		o := fsd.ParseOp(opf)
+		if k < 0 {
+			res = append(res, s.Do(o))
+		} else {
+			_, _, r, crashed := runOp(s, o, k+1)
+			if crashed {
+				res = append(res, "crashed")
+				s = fsd.Open(dir, s.Cap, s.Tab) // the process is gone: a new store object
+			} else {
+				res = append(res, r)
+			}
+		}
+		st, vs := recovered(dir, s.Cap, s.Tab)
+		cks = append(cks, st+"/"+vs)
+	}
+	return []string{"res=" + strings.Join(res, ","), "cks=" + strings.Join(cks, "^")}
+}
+
 func exec(kind string, in []string) []string {
+	if kind == "chist" {
+		if !fsd.CheckPool(in[1]) {
+			return []string{"POOL-DIFFERS"}
+		}
+		return crashHistory(vh.AtoI(in[0]), in[2])
+	}
 	if kind == "new" {
 		if !fsd.CheckPool(in[1]) {
 			return []string{"POOL-DIFFERS"}
